@@ -63,6 +63,17 @@ def _snap(v, meta):
     return (cls.__name__, repr(v))
 
 
+def struct_noid(obj):
+    """Structure of a tree without object identities and without metadata (own walk)."""
+    def strip(x):
+        if isinstance(x, tuple):
+            if len(x) == 3 and isinstance(x[0], str) and isinstance(x[1], int) and isinstance(x[2], tuple):
+                return (x[0], tuple((n, strip(v)) for n, v in x[2]))
+            return tuple(strip(e) for e in x)
+        return x
+    return strip(_snap(obj, {}))
+
+
 def diff_snap(a, b):
     """First difference between two snapshots, as a short string, or None."""
     d = _diff(a.struct, b.struct, 'root')
@@ -205,7 +216,7 @@ def gen_scenario(seed, cfg):
                 t = eg.num(0)
             else:
                 t = eg.boolean(0)
-                if k == 'pred' and sim.coin('vacuous_src', 0.12):
+                if k == 'pred' and sim.coin('vacuous_src', 0.25):
                     t = ('lit', 'bool', sim.pick('vac', ('True', 'False')))
             t = gen.sanitize_powers(t)
             sources.append({'kind': k, 'text': gen.render(t)})
@@ -217,7 +228,7 @@ def gen_scenario(seed, cfg):
             sources.append({'kind': 'spec', 'text': '\n'.join(gen.render_property(pg.prop()) for _ in range(sim.randint('nprops', 1, 3)))})
     for src in sources:
         if sim.coin('annotate', 0.5):
-            src['annotate'] = sim.rng.getrandbits(24) & sim.rng.getrandbits(24)  # about a quarter of the nodes
+            src['annotate'] = (sim.rng.getrandbits(24) & sim.rng.getrandbits(24)) | 1  # the root and about a quarter of the nodes
             sim.note('annbits', src['annotate'])
     nops = sim.randint('nops', *cfg['ops'])
     ops = []
@@ -305,7 +316,7 @@ def applicable_ops(h):
     if h.kind == 'expression':
         ops += OPS_EXPR * 2
     elif h.kind == 'predicate':
-        ops += OPS_PRED * 2
+        ops += list(OPS_PRED) * 2 + ['join', 'negate'] * 3
     elif h.kind == 'event':
         ops += OPS_EVENT * 2
     elif h.kind == 'property':
@@ -486,7 +497,7 @@ def do_op(name, h, h2, op, pool, schema, msg_types):
             elif x.kind in ('event', 'property', 'specification', 'scope', 'pattern'):
                 others.extend(n for n in x.obj.iterate() if getattr(n, 'is_predicate', False))
         vac = [o for o in others if o.is_vacuous]
-        if vac and (op['sel'] & 3) == 0:
+        if vac and (op['sel'] & 1) == 0:
             others = vac
         others = others or [obj]
         return obj.join(others[(op['sel'] >> 2) % len(others)]), None
@@ -752,6 +763,9 @@ def execute(sc, stats=None, upto=None, trace=None):
                         fresh = None
                         count('fresh_construct_failed')
                     if fresh is not None:
+                        if struct_noid(result) != struct_noid(fresh):
+                            return _viol('but-value', 'but(%s=...) differs structurally from a fresh construction with those fields (%s): %s' % (
+                                fname, type(recv).__name__, _diff(struct_noid(result), struct_noid(fresh), 'root')), op_desc, sc, step)
                         if not (result == fresh) or hash(result) != hash(fresh):
                             return _viol('but-value', 'but(%s=...) is not equal/hash-equal to a fresh construction with those fields (%s)' % (fname, type(recv).__name__), op_desc, sc, step)
                     if result.metadata != recv.metadata:
